@@ -81,6 +81,8 @@ def r23(ctx, chk, rule2="C03.2", rule3="C03.3"):
         where = k.func.where()
         stores = _store_of_next_states(k.sx)
         if len(stores) != 1:
+            if _sequential_removal(ctx, chk, k, cls, rule3, where):
+                continue
             chk.undecided(rule2, where, "%d assignments to self.next_states in %s.prune_paths (expected one; in-place idioms are judged by C03.1)" % (len(stores), cls))
             continue
         cond, _, _, _, val = stores[0]
@@ -157,6 +159,55 @@ def r23(ctx, chk, rule2="C03.2", rule3="C03.3"):
         else:
             chk.violation(rule3, where, "denominator is %s; the specification divides by the surviving mass" % verdict,
                           expected="SUM(p over survivors)  or  1 - SUM(p over removed)", found=show(D), construct="%s.prune_paths denominator" % cls)
+
+
+def _deep(sx, t, seen=None):
+    """Sub-terms of t, following comprehension / loop-result references into their element and update terms."""
+    seen = set() if seen is None else seen
+    out = []
+    for x in _sub(t):
+        out.append(x)
+        if x[0] in ("compr", "res") and x[1] in sx.loops and (x[0], x[1], x[2] if x[0] == "res" else None) not in seen:
+            seen.add((x[0], x[1], x[2] if x[0] == "res" else None))
+            L = sx.loops[x[1]]
+            if x[0] == "compr":
+                for y in [L.elt] + list(L.filters) + [L.source]:
+                    out += _deep(sx, y, seen)
+            else:
+                u = L.update.get(x[2])
+                if u is not None:
+                    out += _deep(sx, u, seen)
+                out += _deep(sx, L.source, seen)
+    return out
+
+
+def _sequential_removal(ctx, chk, k, cls, rule3, where):
+    """prune_paths that removes the dead successors one at a time: each step's rescaling must use the list as it is at
+    that step.  A step that divides by 1 - (probability recorded in a snapshot taken before the loop) is wrong as soon as
+    two successors are dead: p/((1-q1)(1-q2)) instead of p/(1-q1-q2)."""
+    found = False
+    for lid, L in k.sx.loops.items():
+        if L.kind != "for":
+            continue
+        stores = [e for e in L.effects if e[1] == "store" and e[3] == "next_states" and e[2] == ("v", "self")]
+        if not stores:
+            continue
+        # the loop iterates a snapshot of the successor list
+        src_t = L.source
+        snap = src_t[0] == "compr" and k.sx.loops[src_t[1]].source == SELF_NEXT
+        if not snap:
+            continue
+        found = True
+        val = stores[0][4]
+        elem = ("elem", lid)
+        stale = [t for t in _deep(k.sx, val) if t[0] == "div" and any(x == elem or (x[0] == "idx" and x[1] == elem) for x in _sub(t[2]))]
+        if stale:
+            chk.violation(rule3, where, "%s.prune_paths removes the dead successors one at a time and each step rescales by `%s`, computed from a snapshot taken BEFORE the earlier steps rescaled the list: "
+                          "with two dead successors q1, q2 the survivors get p/((1-q1)(1-q2)) instead of p/(1-q1-q2) and no longer sum to 1" % (cls, show(stale[0][2])),
+                          expected="(p / surviving mass, t) - one denominator for the whole list", found=show(stale[0]), construct="%s.prune_paths stale per-step denominator" % cls)
+        else:
+            chk.undecided(rule3, where, "%s.prune_paths removes dead successors one at a time; per-step renormalisation `%s` not recognised" % (cls, show(val)[:120]))
+    return found
 
 
 def _den_text(k, D):
